@@ -8,6 +8,29 @@ int main(int argc, char** argv) {
     Replay r(argv[1]);
     uint8_t type = (uint8_t)r.num("W_type", 3), len0 = (uint8_t)r.num("W_len0", 1);
     uint32_t ext = (uint32_t)r.num("W_ext", 0), inner = (uint32_t)r.num("W_inner", 20);
+    if (r.str("unit").find("icmpv6") != std::string::npos) {
+        if (inner > 2040) return 0;
+        if (type != ICMPv6::DEST_UNREACHABLE && type != ICMPv6::TIME_EXCEEDED) { printf("not an RFC 4884 type: nothing to replay\n"); return 0; }
+        ICMPv6 icmp((ICMPv6::Types)type);
+        if (inner) icmp /= RawPDU(std::vector<uint8_t>(inner, 0x41));
+        icmp.use_length_field(len0 != 0);
+        if (ext) {
+            size_t payload = ext >= 8 ? ext - 8 : 0;
+            ICMPExtension e(1, 1); e.payload(ICMPExtension::payload_type(payload, 0x42));
+            icmp.extensions().add_extension(e);
+        }
+        std::vector<uint8_t> y = icmp.serialize();
+        uint32_t padded = (inner + 7u) & ~7u;
+        unsigned len1 = y[4];
+        printf("ICMPv6 type %u inner %u ext %u use_length %d: length octet %u (x8 = %u), padded datagram %u, serialization %zu\n", type, inner, ext, len0 != 0, len1, len1 * 8, padded, y.size());
+        if (len0 == 0 && padded <= 128) { if (len1 != 0) { printf("DEFECT: unused length octet not zero\n"); return 1; } return 0; }
+        if (ext) {
+            uint32_t want = inner ? (padded > 128 ? padded : 128) : 0;
+            if (len1 * 8 != want) { printf("DEFECT: the extension structure is %u octets behind the header but the length octet says %u\n", want, len1 * 8); return 1; }
+        }
+        else if (len1 * 8 != padded) { printf("DEFECT: no extension structure: the length octet must count the padded datagram (%u octets present), it says %u\n", padded, len1 * 8); return 1; }
+        printf("ok\n"); return 0;
+    }
     if (inner > 1020) return 0;
     ICMP icmp((ICMP::Flags)type);
     if (type != ICMP::DEST_UNREACHABLE && type != ICMP::TIME_EXCEEDED && type != ICMP::PARAM_PROBLEM) { printf("not an RFC 4884 type: nothing to replay\n"); return 0; }
